@@ -35,7 +35,8 @@ def dump_digest(path, seed_off, seed_len):
 def one_process(exe, d, param, upto, restart_from=None, tag=""):
     """Run (or continue) until step `upto`. Returns (rc, [(k, state digest)], (k, dump digest))."""
     res = hydrolib.run_rhd_param(exe, d, param, threads=1, steps=upto, restart_from="." if restart_from else None,
-                                 timeout=120, tracename="trace_%s.ndjson" % tag)
+                                 timeout=120, tracename="trace_%s.ndjson" % tag,
+                                 extra_env={"MALLOC_PERTURB_": "165"})
     steps = [(x["step"], x["digest"]) for x in res["trace"] if x["e"] == "h.state"]
     seeds = [x for x in res["trace"] if x["e"] == "dump.field" and x["name"] == "seed"]
     dump = None
@@ -124,7 +125,7 @@ TurbulenceForcing:
 MASK = """
 HydroMask:
   type: RescaledIC
-  center: [0.5 m, 0.5 m, 0.5 m]
+  center: [0.25 m, 0.5 m, 0.5 m]
   radius: 0.2 m
   delta t: 1.e-4 s
 """
@@ -141,9 +142,9 @@ def configurations(tier, rng):
                                      side=(0.9, 1.3, 0.35), anchor=(0.1, -0.7, 3.3))))
     cfgs.append(("turbulence", dict(base, ncell=(8, 8, 8), nsub=(2, 2, 2), periodic=(True, True, True), side=(1., 1., 1.),
                                     extra="  turbulent forcing: true\n" + TURB)))
+    cfgs.append(("mask", dict(base, ncell=(8, 8, 8), nsub=(2, 2, 2), periodic=(False, False, False), side=(1., 1., 1.),
+                              extra="  use mask: true\n" + MASK)))
     if tier != "quick":
-        cfgs.append(("mask", dict(base, ncell=(8, 8, 8), nsub=(2, 2, 2), periodic=(False, False, False), side=(1., 1., 1.),
-                                  extra="  use mask: true\n" + MASK)))
         cfgs.append(("single", dict(base, ncell=(10, 10, 10), nsub=(1, 1, 1), periodic=(True, False, True),
                                     side=(0.3, 0.3, 0.3))))
         cfgs.append(("gamma14", dict(base, ncell=(12, 8, 8), nsub=(3, 2, 1), periodic=(False, False, True),
